@@ -28,7 +28,8 @@ model `Model/Stream.lean`:
 * `lag_acceptor_monotone`, `lag_rejects_slurp` (a proved NEGATIVE: read
   everything, then write everything is rejected for every stream of ≥ 3
   documents), `buffer_bound`, `yaml_buffer_bound` (reuses
-  `chunker_buffer_bounded`), `coalesced_trace_accepted`.
+  `chunker_buffer_bounded`), `coalesced_trace_accepted`, `fast_acceptor_eq` (the
+  one-pass acceptor the driver runs returns what the definition returns).
 * re-used, not re-proved (listed as obligations by absolute name):
   `Xt.Props.C03.chunker_lag_one`, `Xt.Props.C03.chunker_buffer_bounded`,
   `Xt.Props.C09.capture_released`, `Xt.Props.C09.toml_trial_capped`.
@@ -333,6 +334,19 @@ theorem yaml_buffer_bound (oc : Bool) (stream : List Nat) (pre suf : List Chunke
   have := readMax_le B pre 0 (Nat.zero_le _) hB
   exact ⟨by omega, h2⟩
 
+/-! ## What the driver runs -/
+
+/-- The driver answers `lagok` / `lagat` case lines with the one-pass acceptor
+`lagFirstBadFast` (a cursor over the documents when `ends` is nondecreasing,
+the definition otherwise): for EVERY input it returns what the definition
+returns — the same verdict and the same first offending event. -/
+theorem fast_acceptor_eq (d la : Nat) (ends outs : List Nat) (tr : List Ev) :
+    lagFirstBadFast d la ends outs tr = lagFirstBad d la ends outs tr ∧
+    (lagOkAt d la ends outs tr = (lagFirstBadFast d la ends outs tr).isNone) := by
+  refine ⟨lagFirstBadFast_eq d la ends outs tr, ?_⟩
+  rw [lagFirstBadFast_eq]
+  rfl
+
 /-! ## Coalesced writes -/
 
 /-- The harness's writer records consecutive writes as one event, and the
@@ -417,6 +431,7 @@ example : coalesce [.rd 0 3, .wr 1, .wr 2, .wr 3, .rd 3 0, .wr 4] = [.rd 0 3, .w
 #print axioms sizesOf_le
 #print axioms yaml_buffer_bound
 #print axioms coalesced_trace_accepted
+#print axioms fast_acceptor_eq
 #print axioms Xt.Props.C03.chunker_lag_one
 #print axioms Xt.Props.C03.chunker_buffer_bounded
 #print axioms Xt.Props.C09.capture_released
